@@ -4,7 +4,7 @@
    arbitrary prime order l, abstract point encoding enc and hash-to-scalar H).
    The correspondence harness (harness/cmd/c14) runs the model against
    AggregateSign / AggregateVerify, signature bytes included. *)
-From Coq Require Import List ZArith NArith Bool Znumtheory.
+From Coq Require Import List ZArith NArith Bool Znumtheory Lia.
 Require Import Mixin.Base.Res Mixin.Gen.Consts Mixin.Model.Group Mixin.Model.Aggregate.
 Require Import Mixin.Proofs.Group Mixin.Proofs.Aggregate.
 Import ListNotations.
@@ -112,6 +112,69 @@ Theorem C14_rogue_key : forall l enc H i j kv kr x, cg l kr (x - kv) ->
 Proof. exact rogue_key. Qed.
 Print Assumptions C14_rogue_key.
 
+
+(* The byte-level transcripts are injective (fixed-width fields): given an
+   encoding that is injective on [0,l) and 32 bytes wide, signer indexes below
+   2^32 and keys in [0,l), the signer transcript (count, then index as uint32
+   and key bytes per signer) determines the signer list and the keys at those
+   positions; a coefficient transcript (domain, signer transcript, index, key)
+   determines all three; the challenge transcript determines R, the weighted
+   key and the message. *)
+Theorem C14_transcript_injective : forall l enc,
+  (forall a b, 0 <= a < l -> 0 <= b < l -> enc a = enc b -> a = b) ->
+  (forall a, (enc a < n256)%N) ->
+  (forall sel sel', Forall (entry_ok l) sel -> Forall (entry_ok l) sel' ->
+     transcript enc sel = transcript enc sel' -> sel = sel') /\
+  (forall tr tr' ik ik', entry_ok l ik -> entry_ok l ik' ->
+     coef_input enc tr ik = coef_input enc tr' ik' -> tr = tr' /\ ik = ik') /\
+  (forall r a m r' a' m', (m < n256)%N -> (m' < n256)%N ->
+     challenge_input enc r a m = challenge_input enc r' a' m' -> enc r = enc r' /\ enc a = enc a' /\ m = m').
+Proof.
+  intros l enc Hinj Hr. split; [|split].
+  - exact (transcript_inj l enc Hinj Hr).
+  - exact (coef_input_inj l enc Hinj Hr).
+  - exact (challenge_input_inj enc Hr).
+Qed.
+Print Assumptions C14_transcript_injective.
+
+(* Binding restated over signer sets, keys and message (C14_binding_dichotomy
+   with "transcripts coincide" resolved by injectivity): a signature accepted
+   for (keys, signers, m) and for (keys', signers', m') means
+   (i) the same signer list, the same keys at those positions and the same message; or
+   (ii) different signer transcripts whose weighted keys collide although every
+        coefficient on one side is the hash of an input different from every
+        coefficient input on the other side; or
+   (iii) the hash of a different challenge transcript equals the one value c.A/A'. *)
+Theorem C14_binding_sets : forall l enc H r s keys signers m keys' signers' m',
+  (forall a b, 0 <= a < l -> 0 <= b < l -> enc a = enc b -> a = b) ->
+  (forall a, (enc a < n256)%N) ->
+  prime l -> (m < n256)%N -> (m' < n256)%N ->
+  Z.of_nat (length keys) <= 2 ^ 32 -> Z.of_nat (length keys') <= 2 ^ 32 ->
+  aggregate_verify l enc H r s keys signers m = Ok tt ->
+  aggregate_verify l enc H r s keys' signers' m' = Ok tt ->
+  let sel := sel_of keys signers in let sel' := sel_of keys' signers' in
+  let a := weighted_key_of l enc H sel in let a' := weighted_key_of l enc H sel' in
+  (sel = sel' /\ m = m') \/
+  (sel <> sel' /\ m = m' /\ a = a' /\
+   forall ik ik', In ik sel -> In ik' sel' ->
+     coef_input enc (transcript enc sel) ik <> coef_input enc (transcript enc sel') ik') \/
+  (challenge_input enc r a m <> challenge_input enc r a' m' /\
+   exists w, (a' * w) mod l = 1 mod l /\
+             H (challenge_input enc r a' m') mod l = (H (challenge_input enc r a m) * a * w) mod l).
+Proof. intros l enc H r s keys signers m keys' signers' m' Hinj Hr. exact (binding_sets l enc Hinj Hr H r s keys signers m keys' signers' m'). Qed.
+Print Assumptions C14_binding_sets.
+
+(* sel_of equality is equality of the signer lists and of the keys they select *)
+Theorem C14_sel_eq : forall keys s keys' s', sel_of keys s = sel_of keys' s' ->
+  s = s' /\ map (key_at keys) s = map (key_at keys') s'.
+Proof.
+  intros keys s keys' s' E. split.
+  - apply (f_equal (map fst)) in E. unfold sel_of in E. rewrite !map_map in E. cbn [fst] in E.
+    rewrite !map_id in E. exact E.
+  - apply (f_equal (map snd)) in E. unfold sel_of in E. rewrite !map_map in E. exact E.
+Qed.
+Print Assumptions C14_sel_eq.
+
 (* Non-vacuity over l = 13 with a toy encoding and hash. *)
 Definition ex_enc (p : Z) : N := Z.to_N (p + 100).
 Definition ex_H (b : list N) : Z := Z.of_N (fold_left (fun acc x => (acc * 7 + x + 3) mod 13)%N b 5%N).
@@ -132,3 +195,16 @@ Example C14_ex_sign_verify :
   | _ => False
   end.
 Proof. vm_compute. split; reflexivity. Qed.
+
+(* the toy encoding meets the injectivity hypotheses, and transcripts of
+   different signer lists / keys differ *)
+Example C14_ex_transcripts :
+  (forall a b, 0 <= a < 13 -> 0 <= b < 13 -> ex_enc a = ex_enc b -> a = b) /\
+  transcript ex_enc [(0, 3); (2, 11)] <> transcript ex_enc [(0, 3); (1, 11)] /\
+  transcript ex_enc [(0, 3); (2, 11)] <> transcript ex_enc [(0, 3); (2, 6)] /\
+  transcript ex_enc [(0, 3); (2, 11)] <> transcript ex_enc [(0, 3)] /\
+  length (transcript ex_enc [(0, 3); (2, 11)]) = 76%nat.
+Proof.
+  split; [|vm_compute; repeat split; discriminate].
+  intros a b Ha Hb E. unfold ex_enc in E. apply Z2N.inj in E; lia.
+Qed.
